@@ -8,14 +8,14 @@ Import ListNotations.
 
 Lemma logic_guarded : C10_logic_statement Guarded.
 Proof.
-  intros k g calls. split; [|split].
-  - intros sched t. apply guarded_results.
-  - intros sched H. destruct (guarded_progress k g calls sched H) as (t & H1 & _ & H3). exists t. split; assumption.
-  - intros rounds. apply guarded_fair_complete.
+  intros k g calls Hok. split; [|split].
+  - intros sched t. apply guarded_results. exact Hok.
+  - intros sched H. destruct (guarded_progress k g calls sched Hok H) as (t & H1 & _ & H3). exists t. split; assumption.
+  - intros rounds. apply guarded_fair_complete. exact Hok.
 Qed.
 
 Lemma memory_guarded : C10_memory_statement Guarded.
-Proof. exact guarded_race_free. Qed.
+Proof. intros k g calls sched Hok. apply guarded_race_free. exact Hok. Qed.
 
 Lemma full_for_code : C10_full_statement code_disc.
 Proof. rewrite code_disc_guarded. split; [exact logic_guarded | exact memory_guarded]. Qed.
@@ -23,11 +23,11 @@ Proof. rewrite code_disc_guarded. split; [exact logic_guarded | exact memory_gua
 Lemma full_unguarded_refuted : ~ C10_logic_statement Unguarded /\ ~ C10_memory_statement Unguarded.
 Proof.
   split.
-  - intros H. destruct (H 3 w1_graph w1_calls) as (H1 & _).
+  - intros H. destruct (H 3 w1_graph w1_calls w1_calls_ok) as (H1 & _).
     destruct (H1 w1_sched 1) as (j & Hj).
     destruct unguarded_refuted_root as (E & _). rewrite E in Hj.
     destruct j as [|j]; cbn in Hj; [discriminate|]. inversion Hj.
-  - intros H. apply unguarded_has_race. apply H.
+  - intros H. apply unguarded_has_race. apply H. exact w1_calls_ok.
 Qed.
 
 Lemma no_other_state :
